@@ -10,44 +10,63 @@ Definition round_trip (fuel : nat) (fs : node) (opts : popts) (src dst : str) : 
   | _ => None
   end.
 
-(* ---- the round trip, for every tree of regular files and directories ----
-   [stree]: regular files and directories, any depth and width; [wf]: every name a single plain
-   path segment, no name twice in a directory; [wfs]: directory listings sorted (the order in which
-   filepath.Walk reads them and in which the model's file system lists a directory).  The source
+(* ---- the round trip, for every tree of regular files, directories and links that stay inside ----
+   [stree]: regular files, directories and symbolic links, any depth and width; [wf]: every name a
+   single plain path segment, no name twice in a directory; [wfs]: directory listings sorted (the
+   order in which filepath.Walk reads them and in which the model's file system lists a directory);
+   [links_ok]: every link target is relative, not empty and, read from the directory the link sits
+   in, never climbs above the top of the tree (it may dangle, name another link, or go up and down
+   inside the tree) - the sense of "stays inside" that does not depend on what the tree's own
+   directory is called, and the one under which Pack's check against the source directory and
+   Unpack's check against the destination agree (valid_symlink_stays).  The source
    directory is a real directory below real directories; the destination is an existing empty
    directory given by a clean absolute path; ignore processing is off; any allow list, any cwd,
    any state of the shared flags.  Then Pack succeeds, and unpacking what it wrote puts into the
-   destination exactly the source tree - same names, contents and permissions, every file and
-   directory time rounded to the nearest second ([rounded]) - and nothing else changes. *)
-Theorem C02_round_trip_files_and_directories :
+   destination exactly the source tree - same names, contents and permissions, the same link
+   targets, every file and directory time rounded to the nearest second ([rounded]) - and nothing
+   else changes. *)
+Theorem C02_round_trip :
   forall fs opts flags cwd fuel pre x pmR mtR ks dst pmD mtD,
     is_dir fs = true -> rdir fs pre -> forallb seg_ok (pre ++ [x]) = true ->
     get fs (pre ++ [x]) = Some (to_node (SDir pmR mtR ks)) ->
     o_ignore opts = false -> sheight (SDir pmR mtR ks) < fuel ->
-    wf (SDir pmR mtR ks) -> wfs (SDir pmR mtR ks) ->
+    wf (SDir pmR mtR ks) -> wfs (SDir pmR mtR ks) -> links_ok [] (SDir pmR mtR ks) ->
     dst_ok dst -> rdir fs (comps_of dst) -> get fs (comps_of dst) = Some (Dir pmD mtD []) ->
     exists es files size,
       pack fuel fs opts flags cwd (join_abs (pre ++ [x])) = (PackOk es files size, flags) /\
       unpack true (o_allow opts) fs dst (map to_entry es)
       = (put fs (comps_of dst) (Dir pmD (match ks with [] => mtD | _ => None end) (map rp ks)), ROk).
 Proof. exact pack_unpack_round_trip. Qed.
-Print Assumptions C02_round_trip_files_and_directories.
+Print Assumptions C02_round_trip.
 
-(* non-vacuity: a tree with an empty directory, an empty file, odd modes, nesting *)
+(* a link that stays inside is accepted by validSymlink under every root: the source directory
+   on the Pack side and the destination on the Unpack side *)
+Theorem C02_link_check_is_root_independent :
+  forall allow root pre x t,
+    dst_ok root -> forallb seg_ok (pre ++ [x]) = true -> link_stays pre t = true ->
+    valid_symlink allow root (join_abs (comps_of root ++ pre ++ [x])) t = true.
+Proof. exact valid_symlink_stays. Qed.
+Print Assumptions C02_link_check_is_root_independent.
+
+(* non-vacuity: a tree with an empty directory, an empty file, odd modes, nesting, a dangling link,
+   a link to a link, a link that goes up and down inside the tree *)
 Definition c02_stree : stree :=
   SDir 493 (Some 1500000000400000000%Z)
     [ (s2l "a", SFile (s2l "alpha") 256 (Some 1400000000500000000%Z));
       (s2l "e", SFile [] 420 (Some 1400000001499999999%Z));
       (s2l "emptydir", SDir 448 (Some 1500000002600000000%Z) []);
+      (s2l "l1", SLink (s2l "nowhere"));
+      (s2l "l2", SLink (s2l "l1"));
       (s2l "sub", SDir 493 (Some 1500000003000000000%Z)
-         [ (s2l "f", SFile (s2l "data") 384 (Some 1400000004000000001%Z)) ]) ].
+         [ (s2l "f", SFile (s2l "data") 384 (Some 1400000004000000001%Z));
+           (s2l "up", SLink (s2l "../emptydir/../sub/f")) ]) ].
 Example C02_hypotheses_satisfiable :
-  wf c02_stree /\ wfs c02_stree /\ sheight c02_stree < 10 /\
+  wf c02_stree /\ wfs c02_stree /\ links_ok [] c02_stree /\ sheight c02_stree < 10 /\
   forallb seg_ok ([] ++ [s2l "src"]) = true /\ dst_ok (s2l "/dst").
 Proof. cbn. repeat split; try reflexivity; try lia; repeat constructor; cbn; intuition discriminate. Qed.
 
-(* Pieces that are proved for all inputs (also for trees with links, where the general
-   round trip is not proved):
+(* Pieces that are proved for all inputs (also for trees outside the theorem above: links that
+   leave the tree and re-enter it by name, unsorted listings, ignore rules):
    - Pack stores exactly the content of in-tree regular files and only valid
      links (C05), its metadata describes the entries (C20);
    - Unpack writes nothing outside dst (C01);
